@@ -471,6 +471,44 @@ func runC16(cs *c16Case, scratch string, idx int, sr *run.ShardResult) (class, d
 		if c, d := afterCloseChecks(coll, nil); c != "" {
 			return c, d
 		}
+	case "sync-notify-queued-behind-async":
+		// One merger cycle that has to answer several queued pings, the
+		// synchronous ones behind asynchronous ones.
+		e := eng.NewExec(cs.Cfg, dir, true)
+		defer e.D.Detach()
+		if err := e.Open(); err != nil {
+			return "inconclusive", "open: " + err.Error()
+		}
+		coll := e.Coll
+		nt := coll.(notifier)
+		// the merger is parked at merger.loop: everything below queues up
+		nasync := 1 + int(cs.Seed%3)
+		for i := 0; i < nasync; i++ {
+			nt.NotifyMerger("verif", false)
+		}
+		set := &callSet{}
+		set.goCall("NotifyMerger(sync)#1", func() error { return nt.NotifyMerger("verif", true) })
+		time.Sleep(2 * time.Millisecond)
+		nt.NotifyMerger("mergeAll", false)
+		set.goCall("NotifyMerger(sync)#2", func() error { return nt.NotifyMerger("verif", true) })
+		time.Sleep(2 * time.Millisecond)
+		unit(fmt.Sprintf("async-pings-ahead=%d", nasync))
+		e.D.DisarmAll()
+		if h, inc := set.waitAll(wd); h != "" {
+			return "hang/synchronous-notify-behind-asynchronous", h
+		} else if inc != "" {
+			return "inconclusive", inc
+		}
+		set2 := &callSet{}
+		set2.goCall("Close", func() error { return coll.Close() })
+		if h, inc := set2.waitAll(wd); h != "" {
+			return "hang/close", h
+		} else if inc != "" {
+			return "inconclusive", inc
+		}
+		if c, d := afterCloseChecks(coll, nil); c != "" {
+			return c, d
+		}
 	case "close-while-lower-keeps-failing":
 		// A lower level that returns an error from every update, promptly:
 		// Close must still return, after a bounded number of further
@@ -637,14 +675,23 @@ func runC16(cs *c16Case, scratch string, idx int, sr *run.ShardResult) (class, d
 		// drains within bounded notifications
 		nt := coll.(notifier)
 		drained := false
-		for i := 0; i < 2000; i++ {
-			nt.NotifyMerger("verif", true)
-			st, _ := coll.Stats()
-			if st.CurDirtyOps == 0 && st.CurDirtySegments == 0 {
-				drained = true
-				break
+		set3 := &callSet{}
+		set3.goCall("drain by synchronous NotifyMerger", func() error {
+			for i := 0; i < 2000; i++ {
+				nt.NotifyMerger("verif", true)
+				st, _ := coll.Stats()
+				if st.CurDirtyOps == 0 && st.CurDirtySegments == 0 {
+					drained = true
+					break
+				}
+				time.Sleep(100 * time.Microsecond)
 			}
-			time.Sleep(100 * time.Microsecond)
+			return nil
+		})
+		if h, inc := set3.waitAll(wd); h != "" {
+			return "hang/synchronous-notify-after-resume", h
+		} else if inc != "" {
+			return "inconclusive", inc
 		}
 		if !drained {
 			return "not-drained-after-resume", "dirty gauges did not reach zero within 2000 synchronous merger notifications after the lower level resumed"
@@ -915,7 +962,7 @@ func collClosed(c moss.Collection) bool {
 
 var c16Scenarios = []string{"backpressure-close", "backpressure-release", "close-during-update", "close-merger-waitoutgoing",
 	"notify-racing-close", "lower-stalled-resumed", "random-close", "random-close", "notify-flood", "notify-flood", "close-writer-parked-installed",
-	"round-completes-as-merger-starts-waiting", "close-while-lower-keeps-failing"}
+	"round-completes-as-merger-starts-waiting", "close-while-lower-keeps-failing", "sync-notify-queued-behind-async"}
 
 func genC16(r *eng.Rng, idx int) *c16Case {
 	sc := c16Scenarios[idx%len(c16Scenarios)]
@@ -939,7 +986,7 @@ func init() {
 	ck := &run.Check{
 		Prop:  "C16",
 		Level: "exploration",
-		Rule: "scripted-then-randomised scenarios on the real code: (1) more writers than MaxPreMergerBatches against a merger parked by the director, then Close (blocked writers must get ErrClosed) or directed merger cycles (all proceed); (2) Close while the persister is inside a stalled LowerLevelUpdate (resumed only after Close signalled stop); (3) Close while the merger waits for the persister (MaxDirtyOps); (4) synchronous NotifyMerger racing and following Close; (5) lower level stalled, failing, then resumed under writers/readers, then bounded drain; (6) free-running writers/readers/notifiers with injected delays and Close at a random moment; (7) a flood of asynchronous notifications; (8) Close with a writer parked between installing its batch and waking the merger; (9) a whole persister round completing exactly between the merger's decision to wait for it and the wait (hook merger.waitOutgoing), then writers and a synchronous notification; (10) Close against a lower level that fails every update promptly: Close returns after a bounded number of further update calls (counted, not timed) and none follow. Oracles: every API call returns - a call still pending while all moss goroutines are blocked and the set is stable over two stack dumps is a hang (violation); watchdog without quiescence is inconclusive; CurDirtyTopSegments and the number of accepted batches never exceed MaxPreMergerBatches; after Close, NewBatch/Snapshot/Get/ExecuteBatch(non-empty) return ErrClosed. distinct_nontrivial = distinct (scenario | outcome reached: bound reached, closed with blocked writers, ...) units.",
+		Rule: "scripted-then-randomised scenarios on the real code: (1) more writers than MaxPreMergerBatches against a merger parked by the director, then Close (blocked writers must get ErrClosed) or directed merger cycles (all proceed); (2) Close while the persister is inside a stalled LowerLevelUpdate (resumed only after Close signalled stop); (3) Close while the merger waits for the persister (MaxDirtyOps); (4) synchronous NotifyMerger racing and following Close; (5) lower level stalled, failing, then resumed under writers/readers, then bounded drain; (6) free-running writers/readers/notifiers with injected delays and Close at a random moment; (7) a flood of asynchronous notifications; (8) Close with a writer parked between installing its batch and waking the merger; (9) a whole persister round completing exactly between the merger's decision to wait for it and the wait (hook merger.waitOutgoing), then writers and a synchronous notification; (10) synchronous notifications queued behind asynchronous ones for the same merger cycle; (11) Close against a lower level that fails every update promptly: Close returns after a bounded number of further update calls (counted, not timed) and none follow. Oracles: every API call returns - a call still pending while all moss goroutines are blocked and the set is stable over two stack dumps is a hang (violation); watchdog without quiescence is inconclusive; CurDirtyTopSegments and the number of accepted batches never exceed MaxPreMergerBatches; after Close, NewBatch/Snapshot/Get/ExecuteBatch(non-empty) return ErrClosed. distinct_nontrivial = distinct (scenario | outcome reached: bound reached, closed with blocked writers, ...) units.",
 		MinUnits:    6,
 		Assumptions: []string{"liveness is restated as 'returns before quiescence', which a finite run decides", "blocking while the lower level is stalled by the harness is expected; verdicts are taken only with all gates open"},
 	}
